@@ -124,10 +124,10 @@ CLAIMS = {
         "integer (every receiving interface and routing hop lowers it, nothing is handed on with TTL < 1, large TTL is "
         "delivered); ping between every ordered host pair under a solver-chosen toggle (interface down, node off, "
         "ACL deny, switch off) agrees with an independent reachability model and is never handed to a third host's "
-        "software; an interface hands a frame to its node only if it is addressed to it; on a LAN with two routers every unicast frame a host emits for an off-subnet address is addressed to its configured default gateway in every ARP-cache state (0-2 warm-up rounds, either side first), so an exchange the gateway refuses does not complete.",
+        "software; an interface hands a frame to its node only if it is addressed to it; on a LAN with two routers every unicast frame a host emits for an off-subnet address is addressed to its configured default gateway in every ARP-cache state (0-2 warm-up rounds, either side first), so an exchange the gateway refuses does not complete; the same reachability comparison on a generated firewall-with-DMZ scenario (12 ordered pairs, 13 toggles incl. ICMP denied in each of the six lists) and on the shipped wireless-WAN scenario (two wireless routers; access point down, router off, different frequencies, ACL deny).",
         "note": "Bounds: N=3 (quick) / 4 (thorough) routes; non-contiguous masks excluded (stdlib raises); TTL -1..70; "
         "3 hosts, 9 toggles, cold/warm ARP. Termination is argued from the TTL measure (strictly decreasing, checked), "
-        "not run. Wireless receive paths are not covered. Trusted: CrossHair/z3, the ipaddress BV model (validated "
+        "not run.  Trusted: CrossHair/z3, the ipaddress BV model (validated "
         "against the stdlib on a grid and on solver witnesses each run).",
         "technique": "AST-to-SMT translation of route selection (z3 BV32+FP64) + symbolic execution of the real forwarding code (CrossHair+z3), counterexamples replayed",
     },
